@@ -86,7 +86,7 @@ def plan_style(rng, spec, force=None):
         has_any = any(d["event"] == e for d in spec.get("any_decls", []))
         opts = ["attr", "attr", "attr_right", "explicit_event"]
         if e not in deco_targets and not (has_any and st["any"] == "any"):
-            opts += ["kw_str", "kw_list", "kw_event"]
+            opts += ["kw_str", "kw_list", "kw_event", "kw_obj", "kw_obj"]
         if (len(deco_targets.get(e, [])) == 1 and spec["cbs"][deco_targets[e][0]]["deco"]["group"] == "on"
                 and "deco_event_cb" not in st and not spec["cbs"][deco_targets[e][0]]["async"]):
             opts += ["decorator", "decorator"]
@@ -231,29 +231,45 @@ def run_case(case, counters, violations, sigs, samples):
                            "group": style.get("group"), "any": style.get("any"),
                            "ev": sorted(set(style.get("events", {}).values())), "inherit": bool(style.get("base_events"))}, sort_keys=True)
 
-    # canonical rendering must itself conform, otherwise the case is not C15's
-    if any(r is not None for r, _l, _c in base["hist"]) or "error" in base["struct"]:
+    def conforms(r):
+        return all(rej is None for rej, _l, _c in r["hist"]) and not any(getattr(c, "softs", []) for _r, _l, c in r["hist"]) \
+            and "error" not in r["struct"]
+
+    ok = [conforms(r) for r in results]
+    if not any(ok):
+        # every rendering deviates from the reference in the same run: not a style difference
         counters["foreign_aborts"] += 1
         return
+    # reference rendering for comparison: the first conforming one
+    base = results[ok.index(True)]
     feats = (bool(spec["guards"]), bool(spec["cbs"]), bool(spec.get("any_decls")), any(len(t["events"]) > 1 for t in spec["transitions"]))
-    for r in results[1:]:
+    for r in results:
+        if r is base:
+            continue
         counters["pairs_compared"] += 1
         sk = style_key(r["style"])
         counters.setdefault("styles_seen", [])
         if sk not in counters["styles_seen"] and len(counters["styles_seen"]) < 300:
             counters["styles_seen"].append(sk)
-        wit = {"canonical_source": base["source"], "styled_source": r["source"], "style": r["style"],
-               "spec": spec, "histories": case["histories"]}
+        wit = {"conforming_source": base["source"], "conforming_style": base["style"], "deviating_source": r["source"],
+               "style": r["style"], "spec": spec, "histories": case["histories"]}
 
         def mech_of(what):
-            s_ = r["style"]
+            s_ = r["style"] or {}
+            b_ = base["style"] or {}
             tags = []
+            if not r["style"]:
+                tags.append("canonical")
+                if spec.get("any_decls") and b_.get("any") == "explicit":
+                    tags.append("from_any")
             if s_.get("base_events"):
                 tags.append("inheritance")
-            if s_.get("states") != "attrs":
+            if s_.get("states", "attrs") != "attrs":
                 tags.append("states-" + s_["states"])
             if s_.get("any") == "explicit":
                 tags.append("any-explicit")
+            elif spec.get("any_decls") and r["style"]:
+                tags.append("from_any")
             tags += sorted({v for v in s_.get("events", {}).values() if v not in ("attr",)})
             tags += sorted({"t-" + v for v in s_.get("tstyle", {}).values() if v != "to"})
             if s_.get("group"):
@@ -263,7 +279,7 @@ def run_case(case, counters, violations, sigs, samples):
         if r["struct"] != base["struct"]:
             keys = [k_ for k_ in ("error", "states", "events", "allowed") if r["struct"].get(k_) != base["struct"].get(k_)]
             violations.append({"mechanism": mech_of("structure-differs(" + ",".join(keys) + ")"), "rule": "C15.same-structure",
-                               "detail": f"canonical={ {k_: base['struct'].get(k_) for k_ in keys} } styled={ {k_: r['struct'].get(k_) for k_ in keys} }"[:800],
+                               "detail": f"conforming={ {k_: base['struct'].get(k_) for k_ in keys} } deviating={ {k_: r['struct'].get(k_) for k_ in keys} }"[:800],
                                "witness": wit})
             continue
         bad = next(((rej, log) for rej, log, _c in r["hist"] if rej is not None), None)
@@ -278,7 +294,7 @@ def run_case(case, counters, violations, sigs, samples):
                                "detail": softs[0][1][:600], "witness": wit})
             continue
         sigs.add(F.h((sk, feats)))
-        if len(samples) < 2 and r["style"].get("base_events"):
+        if len(samples) < 2 and (r["style"] or {}).get("base_events"):
             samples.append({"canonical_source": base["source"][:1800], "styled_source": r["source"][:1800], "style": r["style"]})
 
 
